@@ -412,8 +412,8 @@ class Service(object):
                         index += 1
                         # Failure to store transaction: stop caching transaction and store last tx block height - 1
                         if res is False:
-                            if t.block_height:
-                                last_block = t.block_height - 1
+                            # (without a block height keep the last block the cache already had for this address)
+                            last_block = t.block_height - 1 if t.block_height else None
                             break
                 self.cache.commit()
                 self.cache.store_address(address, last_block, last_txid=last_txid, txs_complete=self.complete)
